@@ -23,25 +23,32 @@ from .. import core, molgen, wire
 from ..gen import gen_periodic, gen_query, gen_rules
 
 LEVEL = 'translation_validation'
-LEVEL_TEXT = ('The rule-application loop, hydrogen explicification/implicification and the neutralisation bookkeeping are an executable '
+LEVEL_TEXT = ('The rule-application loop, hydrogen explicification/implicification, neutralize (exact where the code is deterministic), '
+              'standardize_charges and fix_resonance (entries, path search, radical and charge loops) are an executable '
               'Lean model tied to the source by regenerated rule tables and by differential testing; conservation of atoms, '
-              'charge accounting, proton balance and the table facts (every valence-valid rule is charge neutral, an abort can only '
-              'happen before anything was changed) are universally quantified theorems about that model. Idempotence, numbering '
-              'independence, absence of valence errors and the documented spellings depend on heuristic parts (resonance path search, '
-              'Kekule/Thiele, tautomer enumeration, Morgan order) for which no forall-statement is true; they are validated on the real '
+              'charge accounting, proton moves atom by atom, "standardize_charges writes only charges", "fix_resonance keeps atoms and '
+              'net charge", alternating delocalisation paths, idempotence of neutralize where all donors are used and the table facts '
+              '(every valence-valid rule is charge neutral, an abort can only happen before anything was changed) are universally '
+              'quantified theorems about that model. General idempotence, numbering independence, absence of valence errors and the '
+              'documented spellings depend on parts for which no forall-statement is true of the code (set order, first match, '
+              'Kekule/Thiele, tautomer enumeration, Morgan order); they are validated on the real '
               'code by relational oracles, so the level is translation validation with partial proofs.')
 LEVEL_NOTE = ('Lean kernel; gen_rules / gen_periodic / gen_query translators; Model/Standardize.lean is a hand transcription validated by the '
               'correspondence streams; matcher = C07 model, query atom equality = C08 model, valences = C04 model; ring perception and '
-              'connected components are inputs taken from the real code; fix_resonance, thiele/kekule, standardize_charges and the '
-              'tautomer enumerators are outside the model (relational oracles only).')
+              'connected components, the Morgan ranks used by standardize_charges and the pop order of the Python sets of fix_resonance '
+              'are inputs taken from the real code; thiele/kekule, salts and the tautomer enumerators are outside the model '
+              '(relational oracles only).')
 TECHNIQUE = 'Lean 4 model of the rule loop + theorems over regenerated rule tables + model-vs-code correspondence + relational oracles'
 RULE = ('cases: (molecule, rule) pairs and whole-molecule runs over documented spellings of the repo tests, every rule pattern instantiated '
         'as a molecule, corpus molecules decorated with instantiated groups, hand-made and random (often valence-invalid) skeletons; a case '
-        'is non-trivial when the molecule has a bond and (for RULE/STD) at least one rule fired or (EXPL/IMPL/NEUT) an atom changed; '
+        'is non-trivial when the molecule has a bond and (for RULE/STD) at least one rule fired or (EXPL/IMPL/NEUT/NEUTX/CHG/RES) an atom '
+        'changed (RES: also when the molecule has radical / ion candidates); competing-match inputs are built from every rule; '
         'distinct by (stream, canonical request line); relational cases distinct by (operation, canonical SMILES of the input)')
 TRUSTED = ['gen_rules translator (imports the lazy rule tables of /repo)',
            'Model/Standardize.lean is a hand transcription, validated (not proved) against the Python text by the correspondence streams',
-           'SSSR and connected components are supplied by the real code (checked by C06 / C07)',
+           'Model/C14Charges.lean, Model/C14Resonance.lean: hand transcriptions validated by the NEUTX / CHG / RES streams',
+           'SSSR and connected components are supplied by the real code (checked by C06 / C07); atoms_order (C01) and the slot order '
+           'of the rads / entries sets are recorded from the real call and handed to the model',
            'relational oracles in this plugin (canonical strings of the real code: C01)']
 ASSUMPTIONS = ['molecules are well formed (adjacency symmetric, shared Bond objects) as the Graph API guarantees',
                'rule patterns have one connected component and no stereo marks (checked by the translator)',
@@ -1366,7 +1373,7 @@ def charge_instances(ctx):
         for smi in (a, b):
             if smi:
                 base.append(smi)
-    base += MONO_AZOLIUM + CP_ANIONS
+    base += MONO_AZOLIUM + CP_ANIONS + FUSED_AZOLIUM
     mols = []
     for smi in dict.fromkeys(base):
         m = molgen.parse(smi)
@@ -1486,6 +1493,22 @@ def stream_charges(ctx, pool, programs):
             disagree(ctx, 'CHG', lab, line, real, model)
 
 
+RESONANCE_EXTRA = [  # one drawing per special case of `__entries` / of the loop body (correspondence only; often exotic)
+    '[CH2-]C=C[S+]=CC', 'C[S+](=C)C=C[CH2-]', '[CH2-]C=C[S+](C)C', 'C[S+](C)[CH2-]', '[O-]C=C[S+]=C', '[CH2-][S+]=C',
+    '[CH2-]C=C=[NH2+]', '[CH2-]C=C=[N+](C)C', '[O-]C=C=[NH2+]', '[CH2-]C=CC#N', '[O-]C=CC#N', 'N#CC=C[CH-]C=C[NH+]=C',
+    '[CH2-][N+](C)(C)C', '[CH2-]C=C[NH3+]', '[CH2-]C=C[N+](C)(C)C', 'C=[N+](C)[O-]', 'CC=[N+](C)[CH2-]', 'C[N+](C)=CC=C[CH2-]', 'NC=C[CH+]C',
+    'CN(C)C=CC=[N+](C)C', 'CN(C)C=C[CH+]C', 'CNC=CC=[NH+]C', 'CN=[N+]=[N-]', 'C[N-][N+]#N', '[N-]=[N+]=NC=C[CH+]C', '[CH2-]C=CN=[N+]=[N-]',
+    '[CH2-][P+](C)(C)C', '[CH2-]C=C[P+](C)(C)C', '[CH2-]C=C[PH+]=C', 'F[P-](F)(F)(F)(F)F.C=C[CH+]C', '[CH2+]C=C[P-](F)(F)(F)(F)(F)',
+    'F[B-](F)(F)C=C[CH2+]', 'C[B-](C)C=C[CH2+]', '[BH2-]C=C[CH2+]', '[CH2+]C=C[CH2-]', '[CH2+]C=CC=C[CH2-]', '[CH2-]C=C[CH+]C=C',
+    '[CH2]C=C[CH2] |^1:0,3|', '[CH2]C=CC=C[CH2] |^1:0,5|', '[CH2]C=C[CH]C=C[CH2] |^1:0,3,6|', '[CH2]C=C[CH2].[CH2]C=C[CH2] |^1:0,3,4,7|',
+    '[O]C=C[CH2] |^1:0,3|', 'C[N]C=C[CH2] |^1:1,4|', '[CH2-]C=C[O+]=C', '[CH2-]C=C[OH+]C', '[O-]C=C[CH+]C', '[S-]C=CC=[OH+]', '[Se-]C=C[CH2+]',
+    '[CH2-]C1=CC=C[CH+]1', '[CH-]1C=CC=C1[CH2+]', '[O-]c1ccc([CH2+])cc1', '[CH2-]c1ccc([CH2+])cc1', '[O-]C1=CC=C(C=C1)[N+](C)=C',
+    '[SiH2-]C=C[CH2+]', '[AsH-]C=C[CH2+]', '[Te-]C=C[CH2+]', '[CH2-]C=C[SiH2+]', 'C[O-].C=C[CH2+]', '[CH2-]C#C[CH2+]', '[CH2-]C=C=C[CH2+]']
+FUSED_AZOLIUM = ['[nH]1c[nH+]c2[nH]c[nH+]c12', 'Cn1c[n+](C)c2n(C)c[n+](C)c12', '[nH]1c[nH+]c2c1[nH]c[nH+]2', 'C[n+]1cn2cc[n+](C)c2c1',
+                 'Cn1cc2c[n+](C)cn2c1', 'c1c[nH+]c2[nH]c3[nH]c[nH+]c3c12', '[nH]1cc2[nH+]cc[nH+]c2c1', 'C[n+]1ccn2c1[n+](C)cc2', 'Cn1c[n+](C)c2[nH]n[nH+]c12',
+                 'c1[nH]c2c([nH+]1)[nH]c1[nH+]c[nH]c21']
+
+
 def real_resonance(mol):
     """slot order (= pop order) of the `rads` / `entries` sets of the real `__entries()`, snapshot, real `fix_resonance`."""
     try:
@@ -1504,7 +1527,20 @@ def real_resonance(mol):
 def stream_resonance(ctx, pool, programs):
     programs.add('Resonance.fix_resonance')
     reqs = []
-    for lab, mol, _f, _h in pool:
+    extra = []
+    for smi in RESONANCE_EXTRA:
+        m = molgen.parse(smi)
+        if m is None:
+            ctx.dist('RES:extra-not-parsed')
+            continue
+        m = normalised(m)
+        extra.append((f'res:{smi}', m, [], None))
+        for i in range(2 if ctx.quick else 6):
+            try:
+                extra.append((f'res:{smi}#r{i}', molgen.renumber(ctx.rng, m)[0], [], None))
+            except Exception:
+                pass
+    for lab, mol, _f, _h in extra + list(pool):
         if len(mol) > 60:
             continue
         c = mol.copy()
